@@ -9,11 +9,12 @@ Proof (Props/C06.v) + three ties:
                  program whose operands are laundered through untyped code) or a TypeError;
                  the unchecked-accessor mismatch counter must stay 0; a panic is a violation.
 """
-import json, os, random, re
+import json, os, random, re, subprocess
 import vlib
 
 TRUSTED = [
-    "Coq 8.16.1 kernel + vm_compute; primitive floats (Coq.Floats) evaluate + - * / < <= == natively, no FloatAxioms used",
+    "Coq 8.16.1 kernel + vm_compute; primitive floats/ints (PrimFloat.*, PrimInt63.* listed by Print Assumptions are kernel primitives, "
+    "not axioms; no FloatAxioms lemma is used)",
     "tools/extractors/c06.py transcribes enum OpCode (names + discriminants) from bytecode/src/bytecode/opcode.rs; "
     "tools/extract.py the NaN-box constants",
     "Model/VmArith.v is a hand model of runtime/src/vm/{arithmetic,comparison.rs,dispatch/ops/{arithmetic,comparison,bitwise,control_flow}.inc}; "
@@ -21,9 +22,9 @@ TRUSTED = [
     "Model/OpcodeSelect.v is a hand model of backend/src/opcode_select.rs; tied by hx_c06 --select on all operator x type x type combinations",
     "sema (which static types reach select_opcode) is NOT modelled: the whole-pipeline half of the property is explored by generated programs, not proved",
     "EqFF/NeFF agreement is proved only modulo codec_eq_fact (primitive-float == of decoded operands = f64_eq on bit patterns); checked on a grid + by hx_vmop",
-    "pipeline oracle: the reference ('generic semantics') run is the same program with the operation moved into untyped helper functions; "
-    "it is accepted as reference only when its own run has 0 unchecked-accessor mismatches and no panic "
-    "(then every typed op it executed equals the generic op by typed_agrees_when_tagged_*)",
+    "pipeline oracle: the reference ('generic semantics') run is the same computation with every operation moved into untyped helper functions "
+    "whose operands are laundered (static type Dynamic => generic opcodes); it is accepted as reference only when its own run has 0 "
+    "unchecked-accessor mismatches and no panic (then every typed op it executed equals the generic op by typed_agrees_when_tagged_*)",
     "hook H4 (bytecode/src/verif.rs): counter of unchecked accessors applied to wrong-kind values",
 ]
 
@@ -71,9 +72,6 @@ def parse_vmop(out):
     return debug, heap, cases
 
 
-M48 = (1 << 48) - 1
-
-
 def kind_of_word(w):
     hi = (w >> 48) & 0x7FFF
     if (w >> 51) & 0xFFF != 0xFFF:
@@ -81,16 +79,10 @@ def kind_of_word(w):
     return {0x7FF8: "ptr", 0x7FF9: "int", 0x7FFA: "bool", 0x7FFB: "null", 0x7FFD: "nested"}.get(hi, "float")
 
 
-def vmop_direct_oracle(line, debug):
-    """Model-free oracle on the VM's own answers (search for a failing input when the proof or
-    the tie breaks): a typed opcode applied to correctly tagged operands must give exactly what
-    the generic opcode gives on the same operands (looked up in the same output), and must never
-    panic."""
-    return None  # implemented over the whole output in vmop_cross_check
-
-
 def vmop_cross_check(cases):
-    """typed/guarded vs generic on identical operands, using only implementation outputs."""
+    """Model-free oracle on the VM's own answers (the search for a failing input when the proof or
+    the tie breaks): a typed opcode applied to correctly tagged operands must give exactly what the
+    generic opcode gives on the same operands (looked up in the same output)."""
     GEN = {"Add": "Add", "Sub": "Sub", "Mul": "Mul", "Div": "Div", "Mod": "Mod", "Lt": "Lt", "Le": "Le", "Gt": "Gt",
            "Ge": "Ge", "Eq": "Eq", "Ne": "Ne", "Shl": "Shl", "Shr": "Shr", "And": "BitAnd", "Or": "BitOr", "Xor": "BitXor"}
     gen = {}
@@ -99,15 +91,13 @@ def vmop_cross_check(cases):
         t = q.split()
         if t[0] == "QBin" and t[1][2:] in GEN.values():
             gen[(t[1][2:], t[2], t[3])] = o
-    bad = []
-    n = 0
+    bad, n = [], 0
     for _, _, line in cases:
         q, o = line.split("\t")
         t = q.split()
         if t[0] != "QBin":
             continue
-        name = t[1][2:]
-        m = re.fullmatch(r"(Add|Sub|Mul|Div|Mod|Lt|Le|Gt|Ge|Eq|Ne|Shl|Shr|And|Or|Xor)(II|FF)", name)
+        m = re.fullmatch(r"(Add|Sub|Mul|Div|Mod|Lt|Le|Gt|Ge|Eq|Ne|Shl|Shr|And|Or|Xor)(II|FF)", t[1][2:])
         if not m:
             continue
         a, b = int(t[2]), int(t[3])
@@ -121,28 +111,28 @@ def vmop_cross_check(cases):
             continue
         n += 1
         if m.group(1) in ("Eq", "Ne") and want == "float" and a == b:
-            continue        # NaN == NaN raw-bits shortcut of generic Eq (recorded, C06.v)
+            continue        # NaN == NaN raw-bits shortcut of generic Eq (typed_agrees_when_tagged_eq_ff_refuted)
         if o != g:
             bad.append((line, g))
     return n, bad
 
 
-def tie_vmop(ctx, profiles, pairs):
+def tie_vmop(ctx, profiles, pairs, lite=False):
     total, distinct = 0, set()
     for prof in profiles:
         ok, paths, log = vlib.harness_build(["hx_vmop"], profile=prof)
         if not ok:
             ctx.broken.append(f"harness build failed (hx_vmop, {prof})")
             ctx.log(log[-3000:])
-            return
-        rc, out = vlib.sh([paths["hx_vmop"], "--seed", str(ctx.seed), "--pairs", str(pairs)], timeout=900)
+            return None
+        cmd = [paths["hx_vmop"], "--seed", str(ctx.seed), "--pairs", str(pairs)] + (["--lite"] if lite else [])
+        rc, out = vlib.sh(cmd, timeout=900)
         if rc != 0:
             ctx.violation("hx_vmop-crash", "opcode harness crashed", {"profile": prof, "output_tail": out[-2000:]})
-            return
+            return None
         debug, heap, cases = parse_vmop(out)
         total += len(cases)
         distinct.update(q for q, _, _ in cases)
-        # ---- model-free cross check on the implementation's own outputs
         n, bad = vmop_cross_check(cases)
         ctx.cov["vmop_typed_vs_generic_checked"] = ctx.cov.get("vmop_typed_vs_generic_checked", 0) + n
         for line, g in bad[:3]:
@@ -150,12 +140,12 @@ def tie_vmop(ctx, profiles, pairs):
                           "typed opcode on correctly tagged operands differs from the generic opcode",
                           {"case": line, "generic": g, "profile": prof})
         if not debug:
-            pn = sum(1 for _, o, _ in cases if o == "OP")
-            if pn:
-                ctx.violation("vmop-panic-release", "an opcode panicked in the release profile",
-                              {"cases": [l for _, o, l in cases if o == "OP"][:5]})
+            pl = [l for _, o, l in cases if o == "OP"]
+            if pl:
+                ctx.violation("vmop-panic-release", "an opcode panicked in the release profile", {"cases": pl[:5]})
         hv = "[" + "; ".join(f"({p}%N, {'None' if s == '-' else 'Some %s%%N' % s})" for p, s in heap) + "]"
-        fails, err = vlib.coq_eval_cases("c06v", IMPORTS, f"vmop_obs {'true' if debug else 'false'} HV", "vobs_eqb",
+        dbg = "true" if debug else "false"
+        fails, err = vlib.coq_eval_cases("c06v", IMPORTS, f"vmop_obs {dbg} HV", "vobs_eqb",
                                          [(q, o) for q, o, _ in cases], shard=2000,
                                          extra_defs=f"Definition HV := hv_of_list {hv}.\n")
         if err:
@@ -163,10 +153,10 @@ def tie_vmop(ctx, profiles, pairs):
             ctx.log(err[-3000:])
         if fails:
             ctx.broken.append(f"correspondence VmArith ({prof}): model and VM differ on {len(fails)} of {len(cases)} cases")
-            bad = [cases[i] for i in fails[:8]]
+            badc = [cases[i] for i in fails[:8]]
             mo, _ = vlib.coq_eval_terms("c06v", IMPORTS + f"\nDefinition HV := hv_of_list {hv}.",
-                                        [f"vmop_obs {'true' if debug else 'false'} HV ({q})" for q, _, _ in bad])
-            ctx.cov["vmop_disagreements"] = [{"case": l, "model": m} for (_, _, l), m in zip(bad, mo)]
+                                        [f"vmop_obs {dbg} HV ({q})" for q, _, _ in badc])
+            ctx.cov["vmop_disagreements"] = [{"case": l, "model": m, "profile": prof} for (_, _, l), m in zip(badc, mo)]
             ctx.log("VmArith disagreements:", ctx.cov["vmop_disagreements"][:4])
         ctx.add_samples([{"vmop": l} for _, _, l in cases[:1] + cases[len(cases) // 2: len(cases) // 2 + 1]])
     ctx.cov["vmop_cases"] = total
@@ -175,6 +165,22 @@ def tie_vmop(ctx, profiles, pairs):
 
 # ----------------------------------------------------------------------------------------------
 # tie 2: OpcodeSelect <-> select_opcode
+def split_terms(rest):
+    terms, depth, cur = [], 0, ""
+    for ch in rest:
+        if ch == "(":
+            depth += 1
+        if ch == ")":
+            depth -= 1
+        if ch == " " and depth == 0:
+            terms.append(cur)
+            cur = ""
+        else:
+            cur += ch
+    terms.append(cur)
+    return terms
+
+
 def tie_select(ctx, path):
     rc, out = vlib.sh([path, "--select"], timeout=600)
     if rc != 0:
@@ -185,25 +191,11 @@ def tie_select(ctx, path):
         if not line.startswith("QSel"):
             continue
         q, sel, pr = line.split("\t")
-        m = re.fullmatch(r"QSel (\w+) (\(.*\)|\w+) (\(.*\)|\w+)", q)
-        # split the two type terms (each is a word or a parenthesised term)
-        rest = q[len("QSel "):]
-        op, rest = rest.split(" ", 1)
-        terms, depth, cur = [], 0, ""
-        for ch in rest:
-            if ch == "(":
-                depth += 1
-            if ch == ")":
-                depth -= 1
-            if ch == " " and depth == 0:
-                terms.append(cur)
-                cur = ""
-            else:
-                cur += ch
-        terms.append(cur)
-        cases.append((f"({op}, {terms[0]}, {terms[1]})", sel, line))
+        op, rest = q[len("QSel "):].split(" ", 1)
+        l, r = split_terms(rest)
+        cases.append((f"({op}, {l}, {r})", sel, line))
         if pr != "-":
-            probes.append((op, terms[0], terms[1], sel, pr))
+            probes.append((op, l, r, sel, pr))
     fails, err = vlib.coq_eval_cases("c06s", IMPORTS, "fun q => select_opcode (fst (fst q)) (snd (fst q)) (snd q)",
                                      "opcode_eqb", [(q, o) for q, o, _ in cases], shard=2500)
     if err:
@@ -213,8 +205,8 @@ def tie_select(ctx, path):
         ctx.broken.append(f"correspondence OpcodeSelect: model and select_opcode differ on {len(fails)} of {len(cases)} cases")
         ctx.cov["select_disagreements"] = [cases[i][2] for i in fails[:8]]
         ctx.log("select disagreements:", ctx.cov["select_disagreements"][:4])
-    # direct oracle: with an Uncertain/Dynamic operand the selected opcode, run on (2.5, 1), must not
-    # apply an unchecked accessor to the float
+    # direct oracle: with an Uncertain/Dynamic operand the selected opcode, run on (2.5, 1), must not apply an
+    # unchecked accessor to the float
     seen = set()
     for op, l, r, sel, pr in probes:
         m = re.match(r"m=(\d+) (\S+)", pr)
@@ -227,7 +219,7 @@ def tie_select(ctx, path):
             seen.add(sig)
             ctx.violation(sig, f"select_opcode({op}, {l}, {r}) = {sel[2:]}: executed on (2.5, 1) it reads the float with an unchecked accessor ({pr})",
                           {"op": op, "left": l, "right": r, "selected": sel, "probe": pr,
-                           "how": "hx_c06 --select (select_opcode from aelys_backend, opcode run on the real VM)"})
+                           "how": "hx_c06 --select (select_opcode from aelys_backend, selected opcode run on the real VM)"})
     ctx.cov["select_cases"] = len(cases)
     ctx.cov["select_probes_uncertain"] = len(probes)
     ctx.add_samples([{"select": cases[len(cases) // 3][2]}])
@@ -238,6 +230,7 @@ def tie_select(ctx, path):
 # tie 3: whole pipeline
 PRELUDE = """fn helper(q) { return q }
 fn dyn(v) { if false { return "p" } return v }
+fn dyns(v) { if false { return 0 } return v }
 fn rlt(a, b) { return a < b }
 fn radd(a, b) { return a + b }
 """
@@ -260,12 +253,46 @@ def lit(D):
     return "2" if D == "int" else "2.0"
 
 
+def dy(v):
+    """launder a value through untyped code so that its static type is Dynamic (for the checker dyn is
+    String -> String and dyns is int -> int: any other argument type leaves the call's result Dynamic)"""
+    return f"dyns({v})" if v.startswith('"') else f"dyn({v})"
+
+
 def arg(v, launder):
-    return f"dyn({v})" if launder else v
+    return dy(v) if launder else v
 
 
 def mk(position, D, T, detail, typed, ref):
     return {"position": position, "D": D, "T": T, "detail": detail, "typed": PRELUDE + typed + SHOW, "ref": PRELUDE + ref + SHOW}
+
+
+def param_cases(D, T, v, launder, op, K=None):
+    K = K or lit(D)
+    src = "dyn" if launder else "lit"
+    a = arg(v, launder)
+    refb = f"fn g(a, b) {{ let r = a {op} b\n return r }}\n"
+    return [
+        # annotated parameter, operation with a literal (II or IImm forms)
+        mk("typed-param", D, T, f"x{op}K:{src}:{v}",
+           f"fn f(x: {D}) {{ let r = x {op} {K}\n return r }}\nlet r = f({a})\n",
+           refb + f"let r = g({dy(v)}, {dy(K)})\n"),
+        # two annotated parameters, mistyped value first / second
+        mk("typed-param", D, T, f"x{op}y:{src}:{v}",
+           f"fn f(x: {D}, y: {D}) {{ let r = x {op} y\n return r }}\nlet r = f({a}, {K})\n",
+           refb + f"let r = g({dy(v)}, {dy(K)})\n"),
+        mk("typed-param", D, T, f"y{op}x:{src}:{v}",
+           f"fn f(x: {D}, y: {D}) {{ let r = x {op} y\n return r }}\nlet r = f({K}, {a})\n",
+           refb + f"let r = g({dy(K)}, {dy(v)})\n"),
+        # no annotation at all: the parameter type is inferred from its use
+        mk("inferred-param", D, T, f"a{op}K:{src}:{v}",
+           f"fn f(a) {{ let r = a {op} {K}\n return r }}\nlet r = f({a})\n",
+           refb + f"let r = g({dy(v)}, {dy(K)})\n"),
+        # annotated return
+        mk("typed-return", D, T, f"ret{op}K:{src}:{v}",
+           f"fn f(v) -> {D} {{ let t = v\n return t }}\nlet t = f({a})\nlet r = t {op} {K}\n",
+           refb + f"let r = g({dy(v)}, {dy(K)})\n"),
+    ]
 
 
 def gen_cases():
@@ -273,32 +300,11 @@ def gen_cases():
     cs = []
     for D in ("int", "float"):
         ops = ARITH + CMP + (BIT if D == "int" else [])
-        K = lit(D)
         for T, vs in VALS.items():
             for v in vs:
                 for launder in (True, False):
-                    src = "dyn" if launder else "lit"
                     for op in ops:
-                        refb = f"fn g(a, b) {{ let r = a {op} b\n return r }}\n"
-                        # annotated parameter, operation with a literal (II or IImm forms)
-                        cs.append(mk("typed-param", D, T, f"x{op}K:{src}:{v}",
-                                     f"fn f(x: {D}) {{ let r = x {op} {K}\n return r }}\nlet r = f({arg(v, launder)})\n",
-                                     refb + f"let r = g(dyn({v}), dyn({K}))\n"))
-                        # two annotated parameters, mistyped value first / second
-                        cs.append(mk("typed-param", D, T, f"x{op}y:{src}:{v}",
-                                     f"fn f(x: {D}, y: {D}) {{ let r = x {op} y\n return r }}\nlet r = f({arg(v, launder)}, {K})\n",
-                                     refb + f"let r = g(dyn({v}), dyn({K}))\n"))
-                        cs.append(mk("typed-param", D, T, f"y{op}x:{src}:{v}",
-                                     f"fn f(x: {D}, y: {D}) {{ let r = x {op} y\n return r }}\nlet r = f({K}, {arg(v, launder)})\n",
-                                     refb + f"let r = g(dyn({K}), dyn({v}))\n"))
-                        # no annotation at all: the parameter type is inferred from its use
-                        cs.append(mk("inferred-param", D, T, f"a{op}K:{src}:{v}",
-                                     f"fn f(a) {{ let r = a {op} {K}\n return r }}\nlet r = f({arg(v, launder)})\n",
-                                     refb + f"let r = g(dyn({v}), dyn({K}))\n"))
-                        # annotated return
-                        cs.append(mk("typed-return", D, T, f"ret{op}K:{src}:{v}",
-                                     f"fn f(v) -> {D} {{ let t = v\n return t }}\nlet t = f({arg(v, launder)})\nlet r = t {op} {K}\n",
-                                     refb + f"let r = g(dyn({v}), dyn({K}))\n"))
+                        cs += param_cases(D, T, v, launder, op)
     # mixed int/float operands: the backend emits the guarded ...FFG opcodes
     for op in ARITH + CMP:
         refb = f"fn g(a, b) {{ let r = a {op} b\n return r }}\n"
@@ -306,10 +312,11 @@ def gen_cases():
                        ("array", "Array<Int>[1, 2]"), ("function", "helper")):
             for T2, v2 in (("float", "2.0"), ("int", "2"), ("string", '"t"')):
                 cs.append(mk("mixed-int-float", "int*float", f"{T1}*{T2}", f"x{op}y:{v1},{v2}",
-                             f"fn f(x: int, y: float) {{ let r = x {op} y\n return r }}\nlet r = f(dyn({v1}), dyn({v2}))\n",
-                             refb + f"let r = g(dyn({v1}), dyn({v2}))\n"))
+                             f"fn f(x: int, y: float) {{ let r = x {op} y\n return r }}\nlet r = f({dy(v1)}, {dy(v2)})\n",
+                             refb + f"let r = g({dy(v1)}, {dy(v2)})\n"))
     # loop bounds
-    refloop = ("fn g(s, e, st) { let mut c = 0\n let mut i = s\n while rlt(i, e) { c = c + 1\n  i = radd(i, st) }\n return c }\n")
+    refloop = ("fn g(s, e, st) { let mut c = 0\n let mut i = s\n while rlt(dyn(i), e) { c = c + 1\n  i = radd(dyn(i), st) }\n return c }\n")
+    refwhile = "fn g(e) { let mut i = dyn(0)\n while rlt(dyn(i), e) { i = radd(dyn(i), dyn(1)) }\n return i }\n"
     for T, vs in VALS.items():
         for v in vs:
             if T == "int" and v == "-3":
@@ -319,27 +326,27 @@ def gen_cases():
                 a = arg(v, launder)
                 cs.append(mk("loop-bound", "int", T, f"for-end-param:{src}:{v}",
                              f"fn f(n: int) {{ let mut c = 0\n for i in 0..n {{ c += 1 }}\n return c }}\nlet r = f({a})\n",
-                             refloop + f"let r = g(dyn(0), dyn({v}), dyn(1))\n"))
+                             refloop + f"let r = g(dyn(0), {dy(v)}, dyn(1))\n"))
                 cs.append(mk("loop-bound", "int", T, f"for-end-untyped:{src}:{v}",
                              f"fn f(n) {{ let mut c = 0\n for i in 0..n {{ c += 1 }}\n return c }}\nlet r = f({a})\n",
-                             refloop + f"let r = g(dyn(0), dyn({v}), dyn(1))\n"))
+                             refloop + f"let r = g(dyn(0), {dy(v)}, dyn(1))\n"))
                 cs.append(mk("loop-bound", "int", T, f"for-end-toplevel:{src}:{v}",
                              f"let e = {a}\nlet mut c = 0\nfor i in 0..e {{ c += 1 }}\nlet r = c\n",
-                             refloop + f"let r = g(dyn(0), dyn({v}), dyn(1))\n"))
+                             refloop + f"let r = g(dyn(0), {dy(v)}, dyn(1))\n"))
                 if not (T == "int" and v == "7"):
                     cs.append(mk("loop-bound", "int", T, f"for-start:{src}:{v}",
                                  f"fn f(n) {{ let mut c = 0\n for i in n..4 {{ c += 1 }}\n return c }}\nlet r = f({a})\n",
-                                 refloop + f"let r = g(dyn({v}), dyn(4), dyn(1))\n"))
+                                 refloop + f"let r = g({dy(v)}, dyn(4), dyn(1))\n"))
                 if not (T == "int" and v == "0"):
                     cs.append(mk("loop-bound", "int", T, f"for-step:{src}:{v}",
                                  f"fn f(n) {{ let mut c = 0\n for i in 0..9 step n {{ c += 1 }}\n return c }}\nlet r = f({a})\n",
-                                 refloop + f"let r = g(dyn(0), dyn(9), dyn({v}))\n"))
+                                 refloop + f"let r = g(dyn(0), dyn(9), {dy(v)})\n"))
                 cs.append(mk("while-bound", "int", T, f"while-param:{src}:{v}",
                              f"fn f(n: int) {{ let mut i = 0\n while i < n {{ i += 1 }}\n return i }}\nlet r = f({a})\n",
-                             "fn g(e) { let mut i = 0\n while rlt(i, e) { i = radd(i, 1) }\n return i }\n" + f"let r = g(dyn({v}))\n"))
+                             refwhile + f"let r = g({dy(v)})\n"))
                 cs.append(mk("while-bound", "int", T, f"while-untyped:{src}:{v}",
                              f"fn f(n) {{ let mut i = 0\n while i < n {{ i += 1 }}\n return i }}\nlet r = f({a})\n",
-                             "fn g(e) { let mut i = 0\n while rlt(i, e) { i = radd(i, 1) }\n return i }\n" + f"let r = g(dyn({v}))\n"))
+                             refwhile + f"let r = g({dy(v)})\n"))
     # typed array elements
     ARRS = [("Array<Int>", "Array<Int>[1, 2]"), ("Array<Float>", "Array<Float>[1.5, 2.5]"), ("Array<Bool>", "Array<Bool>[true, false]"),
             ("Vec<Int>", "Vec<Int>[3, 4]"), ("Vec<Float>", "Vec<Float>[0.5]"), ("string", '"s"'), ("int", "7"), ("null", "null"),
@@ -348,8 +355,8 @@ def gen_cases():
         refb = f"fn ge(a) {{ let e = a[0]\n return e }}\nfn g(a, b) {{ let r = a {op} b\n return r }}\n"
         for T, v in ARRS:
             cs.append(mk("typed-array-elem", D, T, f"load{op}K:{v}",
-                         f"fn f(a: {D}) {{ let r = a[0] {op} {K}\n return r }}\nlet r = f(dyn({v}))\n",
-                         refb + f"let r = g(ge(dyn({v})), dyn({K}))\n"))
+                         f"fn f(a: {D}) {{ let r = a[0] {op} {K}\n return r }}\nlet r = f({dy(v)})\n",
+                         refb + f"let r = g(ge({dy(v)}), {dy(K)})\n"))
     for D, ctor in (("Array<Int>", "Array<Int>(2)"), ("Array<Float>", "Array<Float>(2)"), ("Array<Bool>", "Array<Bool>(2)"),
                     ("Vec<Int>", "Vec<Int>[0, 0]")):
         for T, vs in VALS.items():
@@ -358,13 +365,66 @@ def gen_cases():
                     src = "dyn" if launder else "lit"
                     cs.append(mk("typed-array-store", D, T, f"store:{src}:{v}",
                                  f"let a = {ctor}\na[0] = {arg(v, launder)}\nlet r = a[0]\n",
-                                 f"let a = dyn({ctor})\nfn st(a, v) {{ a[0] = v\n return a[0] }}\nlet r = st(a, dyn({v}))\n"))
+                                 f"let a = dyn({ctor})\nfn st(a, v) {{ a[0] = v\n return a[0] }}\nlet r = st(a, {dy(v)})\n"))
+    # no annotation, no dynamic code: sema gives `int OP float` the type of its LEFT operand (int) although the
+    # value is a float, so an enclosing operation is emitted as a typed int opcode (found by the C02 tie)
+    for op1 in ("*", "+", "-", "/"):
+        for op2 in ("+", "*", "<", "==", "&"):
+            for a, b, D, T in (("2", "1.5", "int", "float"), ("1.5", "2", "float", "float"), ("2", "3", "int", "int")):
+                refb = f"fn g1(a, b) {{ let r = a {op1} b\n return r }}\nfn g2(a, b) {{ let r = a {op2} b\n return r }}\n"
+                cs.append(mk("mixed-arith-result", D, T, f"({a}{op1}{b}){op2}2:lit",
+                             f"let r = ({a} {op1} {b}) {op2} 2\n",
+                             refb + f"let r = g2(g1(dyn({a}), dyn({b})), dyn(2))\n"))
+                cs.append(mk("mixed-arith-result", D, T, f"(x{op1}y){op2}2:vars:{a},{b}",
+                             f"let x = {a}\nlet y = {b}\nlet t = x {op1} y\nlet r = t {op2} 2\n",
+                             refb + f"let r = g2(g1(dyn({a}), dyn({b})), dyn(2))\n"))
+    # a top-level name captured by a closure as int, then rebound to a value of another type (found by the C02 tie)
+    for T, vs in VALS.items():
+        for v in vs[:2]:
+            cs.append(mk("rebound-global", "int", T, f"closure-capture:{v}",
+                         f"let mut d = 64\nlet i = fn() {{ d += 3\n return d }}\nlet d = {v}\nlet r = i()\n",
+                         f"let mut d = dyn(64)\nlet i = fn() {{ d = radd(dyn(d), dyn(3))\n return d }}\nlet d = {dy(v)}\nlet r = i()\n"))
+    return cs
+
+
+def random_cases(rng, n):
+    """Seed-dependent variety on top of the systematic set: random literal values of every runtime type
+    (48-bit edge ints, float specials, strings that look like numbers, arrays) and random constants."""
+    def rv(T):
+        if T == "int":
+            return str(rng.choice([rng.randint(-100, 100), rng.randint(-(1 << 47), (1 << 47) - 1), (1 << 47) - 1, -(1 << 47) + 1, 1 << 40]))
+        if T == "float":
+            return rng.choice(["%.3f" % rng.uniform(-50, 50), "1e300", "-1e-300", "0.0", "9007199254740993.0", "%d.0" % rng.randint(-9, 9),
+                               "123456789.125"])
+        if T == "bool":
+            return rng.choice(["true", "false"])
+        if T == "null":
+            return "null"
+        if T == "string":
+            return '"' + rng.choice(["", "a", "7", "2.5", "true", "xyz" * rng.randint(1, 4)]) + '"'
+        if T == "array":
+            return rng.choice(["Array<Int>[%d]" % rng.randint(0, 5), "Array<Float>[%.2f, 1.0]" % rng.uniform(0, 3), "Vec<Float>[2.5]",
+                               "Array<Bool>[true]", "Vec<Int>[]"])
+        return rng.choice(["helper", "dyn", "fn(q) { return q }"])
+    cs = []
+    types = list(VALS)
+    while len(cs) < n:
+        D = rng.choice(["int", "float"])
+        T = rng.choice(types)
+        op = rng.choice(ARITH + CMP + (BIT if D == "int" else []))
+        K = str(rng.choice([1, 2, 3, 63, 64, 255, 256, 1000])) if D == "int" else rng.choice(["2.0", "0.5", "1.5", "1e10"])
+        v = rv(T)
+        if v.startswith("-"):
+            v = "(" + v + ")"
+        cs.append(rng.choice(param_cases(D, T, v, rng.random() < 0.7, op, K)))
     return cs
 
 
 SAME_TYPE = {("int", "int"), ("float", "float"), ("Array<Int>", "Array<Int>"), ("Array<Float>", "Array<Float>"),
              ("Vec<Int>", "Vec<Int>"), ("Array<Bool>", "bool"), ("Array<Int>", "int"), ("Array<Float>", "float"), ("Vec<Int>", "int"),
              ("int*float", "int*float")}
+MISREAD_POSITIONS = ("typed-param", "inferred-param", "typed-return", "loop-bound", "while-bound", "typed-array-elem",
+                     "mixed-arith-result", "rebound-global")
 
 
 def run_programs(path, progs, opts, budget=300000):
@@ -373,14 +433,11 @@ def run_programs(path, progs, opts, budget=300000):
     os.makedirs(d, exist_ok=True)
     f = os.path.join(d, f"progs_{os.getpid()}.txt")
     res = {}
-    # several processes in parallel (each program gets a fresh VM anyway)
-    import subprocess
     n = max(1, min(vlib.NCPU, len(progs) // 50 + 1))
-    chunks = [progs[i::n] for i in range(n)]
     procs = []
-    for k, ch in enumerate(chunks):
+    for k in range(n):
         fk = f + f".{k}"
-        open(fk, "w").write("\n=====\n".join(ch))
+        open(fk, "w").write("\n=====\n".join(progs[k::n]))
         procs.append((k, fk, subprocess.Popen([path, "--run", fk, "--opts", ",".join(map(str, opts)), "--budget", str(budget)],
                                               stdout=subprocess.PIPE, stderr=subprocess.DEVNULL, text=True, errors="replace")))
     crashed = None
@@ -399,7 +456,7 @@ def run_programs(path, progs, opts, budget=300000):
 
 def classify(case, o, r):
     """o, r = (class, mism, output, detail) of the typed and the reference run.
-    Returns None (fine), ("skip", why) or ("viol", signature, what)."""
+    Returns None (fine), ("skip", why), ("broken", why) or ("viol", signature, what)."""
     ocl, om, oout, odet = o
     rcl, rm, rout, rdet = r
     if ocl == "compile-error":
@@ -416,7 +473,7 @@ def classify(case, o, r):
             return ("viol", f"misread-with-matching-types:{pos}:{case['D']}<-{case['T']}", how)
         if ocl == "panic" and "type confusion" not in odet:
             return ("viol", f"panic-other:{pos}:{case['D']}<-{case['T']}", how)
-        if pos in ("typed-param", "inferred-param", "typed-return", "loop-bound", "while-bound", "typed-array-elem"):
+        if pos in MISREAD_POSITIONS:
             return ("viol", f"{pos}-unchecked:{case['D']}<-{case['T']}", how)
         return ("viol", f"misread:{pos}:{case['D']}<-{case['T']}", how)
     if ocl == "runtime:TypeError":
@@ -426,9 +483,8 @@ def classify(case, o, r):
     what = f"typed run {ocl} {oout[:40]!r} vs generic semantics {rcl} {rout[:40]!r}"
     if pos == "mixed-int-float":
         t1, t2 = case["T"].split("*")
-        m = re.match(r"x(\S+?)y:", case["detail"])
-        op = m.group(1)
-        if t1 == "int" and t2 == "int":
+        op = re.match(r"x(\S+?)y:", case["detail"]).group(1)
+        if t1 == "int" and t2 == "int" and op in ARITH:
             return ("viol", f"ffg-int-promotion:{op}", what)
         if op in ("<", "<=", ">", ">=") and rcl == "runtime:TypeError" and oout.startswith("false"):
             return ("viol", f"guarded-cmp-nonnumeric-false:{op}", what)
@@ -446,7 +502,8 @@ def pipeline(ctx, path, prof, cases, opts):
     if crashed:
         ctx.violation("hx_c06-run-crash", "pipeline harness process died (abort / stack overflow inside the toolchain?)",
                       {"profile": prof, "output_tail": crashed[1]})
-    stats = {"runs": len(res), "ok": 0, "type_error": 0, "rejected": 0, "skipped": 0, "violating_runs": 0, "other_error_same_as_generic": 0}
+    stats = {"runs": len(res), "ok_same_as_generic": 0, "type_error": 0, "rejected_by_checker": 0, "reference_rejected": 0,
+             "violating_runs": 0, "other_error_same_as_generic": 0}
     sigs = {}
     for c in cases:
         for o_ in opts:
@@ -461,25 +518,23 @@ def pipeline(ctx, path, prof, cases, opts):
                 elif o[0].startswith("runtime:"):
                     stats["other_error_same_as_generic"] += 1
                 else:
-                    stats["ok"] += 1
+                    stats["ok_same_as_generic"] += 1
             elif v[0] == "skip":
-                stats["rejected" if v[1] == "rejected-by-checker" else "skipped"] += 1
+                stats["rejected_by_checker" if v[1] == "rejected-by-checker" else "reference_rejected"] += 1
             elif v[0] == "broken":
-                msg = f"pipeline reference: {v[1]} [{c['position']} {c['detail']} -O{o_}]"
                 if not any(b.startswith("pipeline reference") for b in ctx.broken):
-                    ctx.broken.append(msg)
+                    ctx.broken.append(f"pipeline reference: {v[1]} [{c['position']} {c['detail']} -O{o_}]")
                     ctx.cov["broken_reference_program"] = c["ref"]
             else:
                 stats["violating_runs"] += 1
-                sig = v[1]
-                if sig not in sigs:
-                    sigs[sig] = (c, o_, o, r, v[2])
+                if v[1] not in sigs:
+                    sigs[v[1]] = (c, o_, o, r, v[2])
     for sig, (c, o_, o, r, what) in sorted(sigs.items()):
         ctx.violation(sig, f"{c['position']} declared {c['D']} holds a {c['T']} ({c['detail']}, -O{o_}, {prof}): {what}",
                       {"profile": prof, "opt": o_, "case": c, "typed_run": o, "reference_run": r,
-                       "how": "hx_c06 --run <file with case.typed> --opts %d" % o_})
-    for k, v in stats.items():
-        ctx.cov.setdefault("pipeline_" + prof, {})[k] = v
+                       "how": "put case.typed into a file and run hx_c06 --run <file> --opts %d (%s profile)" % (o_, prof)})
+    ctx.cov["pipeline_" + prof] = stats
+    ctx.cov.setdefault("violation_signatures", {})[prof] = sorted(sigs)
     return stats
 
 
@@ -490,7 +545,7 @@ def load_corpus():
         for fn in sorted(os.listdir(d)):
             if fn.endswith(".json"):
                 c = json.load(open(os.path.join(d, fn)))
-                if "typed" in c:
+                if "typed" in c and "ref" in c:
                     out.append(c)
     return out
 
@@ -518,32 +573,25 @@ def run(ctx):
     # ---- replay of a single recorded case
     if getattr(ctx, "replay_file", None):
         rp = json.load(open(ctx.replay_file))
-        case = rp.get("replay", {}).get("case")
+        rep = rp.get("replay", rp)
+        case = rep.get("case") or (rep if "typed" in rep else None)
         if case:
-            prof = rp["replay"].get("profile", "dev")
-            ok, paths, log = vlib.harness_build(["hx_c06"], profile=prof)
-            if ok:
-                pipeline(ctx, paths["hx_c06"], prof, [case], [rp["replay"].get("opt", 0)])
+            for prof in ([rep["profile"]] if "profile" in rep else ["dev", "release"]):
+                ok, paths, log = vlib.harness_build(["hx_c06"], profile=prof)
+                if ok:
+                    st = pipeline(ctx, paths["hx_c06"], prof, [case], [rep["opt"]] if "opt" in rep else [0, 1, 2, 3])
+                    ctx.log(f"replay {prof}: {st}")
+            ctx.cov["evaluations"] = 1
             return
     # ---- tie 1
-    t = tie_vmop(ctx, ["dev", "release"], 60 if quick else 1500)
+    t = tie_vmop(ctx, ["dev", "release"], 60 if quick else 1500, lite=quick)
+    ctx.log("opcode tie done:", t)
     # ---- ties 2 and 3
-    cases = gen_cases()
-    corpus = load_corpus()
     rng = random.Random(ctx.seed)
-    if quick:
-        # every (position, D, T) class at least once, then a seeded sample
-        byclass = {}
-        for c in cases:
-            byclass.setdefault((c["position"], c["D"], c["T"]), []).append(c)
-        sel = [rng.choice(v) for _, v in sorted(byclass.items())]
-        sel += rng.sample(cases, 450)
-    else:
-        sel = cases
-    sel = corpus + sel
-    total_runs = 0
-    dist = set()
-    nsel = 0
+    corpus = load_corpus()
+    cases = gen_cases()
+    sel = corpus + cases + random_cases(rng, 400 if quick else 8000)
+    total_runs, nsel = 0, 0
     for prof in ("dev", "release"):
         ok, paths, log = vlib.harness_build(["hx_c06"], profile=prof)
         if not ok:
@@ -552,26 +600,28 @@ def run(ctx):
             return
         if prof == "dev":
             nsel = tie_select(ctx, paths["hx_c06"])
+            ctx.log("selection tie done:", nsel)
         st = pipeline(ctx, paths["hx_c06"], prof, sel, [0, 1, 2, 3])
         total_runs += st["runs"]
         ctx.log(f"pipeline {prof}: {st}")
-    for c in sel:
-        dist.add((c["position"], c["D"], c["T"], c["detail"]))
+    dist = {(c["position"], c["D"], c["T"], c["detail"]) for c in sel}
     ctx.cov["evaluations"] = (t[0] if t else 0) + nsel + total_runs
     ctx.cov["distinct_nontrivial"] = (t[1] if t else 0) + len(dist)
     ctx.cov["pipeline_cases"] = len(sel)
-    ctx.cov["pipeline_cases_available"] = len(cases)
+    ctx.cov["corpus_cases_run_first"] = len(corpus)
     ctx.cov["input_distribution"] = {
-        "vmop": "per opcode: cross product of 23 core words (ints 0 +-1 7 +-2^47 edge 64, floats +-0 1.5 -7 inf NaN subnormal 2^53+1, bools, null, "
-                "5 heap pointers) + seeded pairs from a 160-word boundary pool (shift counts -1..65, 2^46, 2^47-1, -2^47, float specials, "
-                "non-canonical NaNs) and random words; immediates 0..255; loop ops over 13 boundary ints^3 + mistyped registers",
+        "vmop": "per opcode: cross product of core words (ints 0 +-1 7 +-2^47 edge 64, floats +-0 1.5 -7 inf NaN subnormal 2^53+1, bools, null, "
+                "heap pointers: 14 words quick / 23 thorough) + seeded pairs from a 160-word boundary pool (shift counts -1..65, 2^46, 2^47-1, -2^47, "
+                "float specials, non-canonical NaNs) and random words; immediates 0..255; loop ops over 13 boundary ints^3 + mistyped registers",
         "select": "16 operators x 42 x 42 resolved types (every base type, Uncertain(base), Uncertain(Uncertain(int/float)))",
         "pipeline": "templates {annotated param (lit/reg/reversed), inferred param, annotated return, mixed int*float, for start/end/step, "
-                    "while bound, typed array load/store} x {int,float,bool,null,string,array,function} values, laundered through untyped code "
-                    "and passed directly, x 16 operators, x -O0..-O3 x {dev,release}",
+                    "while bound, typed array load/store, nested mixed arithmetic, rebound global captured by a closure} x "
+                    "{int,float,bool,null,string,array,function} values, laundered through untyped code and passed directly, x 16 operators, "
+                    "+ seeded random values/constants, x -O0..-O3 x {dev,release}",
         "by_position": {p: sum(1 for c in sel if c["position"] == p) for p in sorted({c["position"] for c in sel})},
     }
     ctx.cov["rule"] = ("evaluations = opcode-level cases (both profiles) + selection cases + pipeline runs (typed and reference programs, 4 levels, "
                        "2 profiles); distinct = distinct opcode queries + distinct (position, declared type, actual type, operator/value) pipeline cases")
-    ctx.add_samples([{"pipeline_case": {k: sel[i][k] for k in ("position", "D", "T", "detail")}, "typed_program": sel[i]["typed"]}
-                     for i in (len(corpus), len(sel) // 2)])
+    mid = len(corpus) + len(cases) // 2
+    ctx.add_samples([{"pipeline_case": {k: sel[i][k] for k in ("position", "D", "T", "detail")}, "typed_program": sel[i]["typed"],
+                      "reference_program": sel[i]["ref"]} for i in (len(corpus), mid)])
